@@ -62,9 +62,19 @@ def gen_job(st: Streams, rng, tier: str, seed: int, tnum: int, jnum: int) -> dic
     job = {"kind": "text", "doc": doc, "ops": ops, "refs": rng.random() < 0.4}
     if job["refs"]:
         v = (seed % 9000 + 1000) * 100 + tnum * 10 + jnum
-        job["doc"] = "let\n  v = %d;\n  w = v;\nin\nrec {\n  a = w;\n  b = a;\n  inherit v;\n  c = [ 1 2 ]; # e\n}\n" % v
+        if rng.random() < 0.5:
+            job["doc"] = "let\n  v = %d;\n  w = v;\nin\nrec {\n  a = w;\n  b = a;\n  inherit v;\n  c = [ 1 2 ]; # e\n}\n" % v
+        else:
+            # three stacked let layers: the chain is assembled from the layer stack on every lookup
+            job["doc"] = "let\n  v = %d;\nin\nlet\n  w = v;\nin\nlet\n  u = w;\nin\nrec {\n  a = u;\n  b = a;\n  inherit v;\n  c = [ 1 2 ]; # e\n}\n" % v
         job["ops"] = ops = [{"op": "set", "path": "n", "value": str(v + 1)}, {"op": "set", "path": "@u", "value": str(v + 2)}][: rng.randint(0, 2)]
     return job
+
+
+def storm_job(seed: int, tnum: int, jnum: int) -> dict:
+    v = (seed % 9000 + 1000) * 100 + tnum * 10 + jnum
+    doc = "let\n  v = %d;\nin\nlet\n  w = v;\nin\nlet\n  u = w;\nin\nrec {\n  a = u;\n  b = a;\n  inherit v;\n  c = [ 1 2 ]; # e\n}\n" % v
+    return {"kind": "text", "doc": doc, "ops": [], "refs": True, "repeat": 3}
 
 
 def run_job(job: dict, root: str) -> list[str]:
@@ -82,11 +92,12 @@ def run_job(job: dict, root: str) -> list[str]:
     src = parse(job["doc"])
     out.append(src.rebuild())
     if job.get("refs"):
-        for key in ("a", "b", "v"):
-            try:
-                out.append(src[key].value.rebuild())
-            except Exception as e:  # noqa: BLE001
-                out.append("EXC:" + type(e).__name__)
+        for _rep in range(job.get("repeat", 1)):
+            for key in ("a", "b", "v"):
+                try:
+                    out.append(src[key].value.rebuild())
+                except Exception as e:  # noqa: BLE001
+                    out.append("EXC:" + type(e).__name__)
     for op in job["ops"]:
         try:
             out.append(session.apply_op(src, op))
@@ -156,6 +167,10 @@ def generate(seed: int, tier: str) -> dict:
     if r < 0.55:
         nthreads = rng.choice([2, 2, 3, 3, 4])
         programs = [[gen_job(st, rng, tier, seed, t, j) for j in range(rng.randint(1, 3))] for t in range(nthreads)]
+        if rng.random() < 0.2:
+            # resolver storm: every thread resolves references through three stacked let layers, several times, so
+            # the scope-chain assembly of different documents interleaves densely
+            programs = [[storm_job(seed, t, j) for j in range(rng.randint(1, 2))] for t in range(nthreads)]
         return {"prop": "C15", "engine": "threads", "kind": "schedule", "seed": seed, "tier": tier, "programs": programs,
                 "switch_p": rng.choice([0.002, 0.005, 0.01, 0.02, 0.05, 0.1]), "gc_p": rng.choice([0.0, 0.0002, 0.001]), "schedule": None}
     if r < 0.8:
